@@ -152,8 +152,15 @@ func opName(o *op) string {
 	return o.T
 }
 
+var workerCPUms, workerRuns int64 // bookkeeping only (reported as counters)
+
 func runProgram(src string) wk.Outcome {
-	return w().Do("run", wk.Src{Name: "c13.wa", Src: src})
+	o := w().Do("run", wk.Src{Name: "c13.wa", Src: src})
+	workerRuns++
+	if o.CPUms > 0 {
+		workerCPUms += o.CPUms
+	}
+	return o
 }
 
 // evaluate renders, runs and compares one history.
@@ -572,6 +579,11 @@ func TestHistories(t *testing.T) {
 		s.Counter("excluded_by_known/"+keyRangeDelete, 1)
 	}
 	forms := allowedForms(s)
+	defer func() {
+		s.Counter("worker_programs_run", workerRuns)
+		s.Counter("worker_cpu_ms", workerCPUms)
+		s.Flush()
+	}()
 	s.Check(t, func(t *rapid.T, c *core.Case) {
 		h := genHistory(strict, forms).Draw(t, "history")
 		c.Set(h)
